@@ -54,7 +54,7 @@ def _bin2hex(eng, m, args, fr, dty):
     return Ok(Slice(out.ref, out.start, 2 * len(inp)))
 
 
-@model(r'^hex::encode::<.*>$')
+@model(r'^(hex::)?encode::<.*>$')
 def _hex_encode(eng, m, args, fr, dty):
     inp = items_of(eng, args[0], fr)
     out = []
@@ -64,7 +64,7 @@ def _hex_encode(eng, m, args, fr, dty):
     return Vec(out)
 
 
-@model(r'^hex::decode::<.*>$')
+@model(r'^(hex::)?decode::<.*>$')
 def _hex_decode(eng, m, args, fr, dty):
     inp = items_of(eng, args[0], fr)
     if len(inp) % 2:
